@@ -1,6 +1,8 @@
 package server
 
 import (
+	"strings"
+
 	"github.com/tidwall/gjson"
 )
 
@@ -57,4 +59,145 @@ func VH_C17_jsonstring() {
 	if !vhNeedsEscape(s) {
 		vassert("C17.K1.append_plain", string(b[2:]) == "\""+s+"\"")
 	}
+}
+
+// C17-K2: in JSON output mode every reply of the commands below - on a dataset whose field values include
+// every spelling the server accepts (odd numerics, quoted strings, JSON, NaN/Inf) - is one valid JSON document
+// with a boolean "ok"; in RESP mode the reply marshals to well-formed RESP. Real handlers, real gjson.Valid.
+
+var vhFieldSpellings = []string{"5", "+5", ".5", "5.", "-.25", "0x1p4", "1e5", "-0", "000123", "1_0", "NaN", "+Inf", "-Infinity",
+	"abc", "\"quoted\"", "a\"b", "a\\b", "{\"a\":1}", "[1,2]", "true", "null", " 7 ", "\x01ctl", "\xffhi"}
+
+var vhJSONCommands = [][]string{
+	{"GET", "fleet", "truck1", "WITHFIELDS"}, {"GET", "fleet", "truck1", "WITHFIELDS", "POINT"}, {"FGET", "fleet", "truck1", "speed"},
+	{"SCAN", "fleet"}, {"SCAN", "fleet", "IDS"}, {"SCAN", "fleet", "COUNT"}, {"SEARCH", "fleet"}, {"WITHIN", "fleet", "BOUNDS", "0", "-180", "50", "180"},
+	{"NEARBY", "fleet", "POINT", "33", "-115"}, {"INTERSECTS", "fleet", "IDS", "BOUNDS", "0", "-180", "50", "180"},
+	{"OUTPUT", "json"}, {"OUTPUT"}, {"PING"}, {"ECHO", "a\"b"}, {"TTL", "fleet", "truck4"}, {"EXISTS", "fleet", "truck1"},
+	{"FEXISTS", "fleet", "truck1", "speed"}, {"TYPE", "fleet"}, {"BOUNDS", "fleet"}, {"BOUNDS", "nokey"}, {"KEYS", "*"},
+	{"DEL", "fleet", "truck2"}, {"DROP", "fleet"}, {"RENAME", "fleet", "cars"}, {"EXPIRE", "fleet", "truck1", "5"}, {"PERSIST", "fleet", "truck4"},
+	{"FSET", "fleet", "truck1", "speed", "1"}, {"SET", "fleet", "t9", "POINT", "1", "2"}, {"JGET", "user", "u1"}, {"JGET", "user", "u1", "name"},
+	{"JSET", "user", "u1", "age", "5"}, {"JDEL", "user", "u1", "name"}, {"HOOKS", "*"}, {"CHANS", "*"}, {"STATS", "fleet", "nokey"},
+	{"HEALTHZ"}, {"NOSUCH"}, {"GET", "fleet"}, {"GET", "nokey", "x"}, {"SET", "fleet", "t9", "POINT", "abc", "2"}, {"TEST", "POINT", "1", "2", "WITHIN", "BOUNDS", "0", "0", "5", "5"},
+	{"CONFIG", "GET", "requirepass"}, {"READONLY", "no"}, {"FLUSHDB"}, {"PDEL", "fleet", "t*"}, {"SETCHAN", "c2", "WITHIN", "fleet", "FENCE", "BOUNDS", "0", "0", "1", "1"}, {"DELCHAN", "ch1"},
+}
+
+//verif:cfg b_commands=47 b_field_spellings=24 b_output=JSON_and_RESP ignorego=1
+func VH_C17_replies_wellformed() {
+	s, _ := vhGateServer()
+	spell := vhFieldSpellings[vchoose(len(vhFieldSpellings))]
+	// a field holding the chosen spelling (FSET and SET FIELD go through the same value parser)
+	vhDo(s, "FSET", "fleet", "truck1", "speed", spell)
+	vhDo(s, "SET", "fleet", "truck2", "FIELD", "note", spell, "STRING", spell)
+	c := vhJSONCommands[vchoose(len(vhJSONCommands))]
+	client := &Client{}
+	msg := &Message{Args: append([]string(nil), c...), ConnType: RESP, OutputType: JSON}
+	err := s.handleInputCommand(client, msg)
+	out := string(client.out)
+	vobs("json", c[0], spell)
+	vassert("C17.K2.no_transport_error", err == nil)
+	// RESP transport carrying JSON: $<len>\r\n<json>\r\n
+	body, framed := vhBulkBody(out)
+	vassert("C17.K3.resp_bulk_framing", framed)
+	vassert("C17.K2.reply_is_valid_json", gjson.Valid(body))
+	okv := gjson.Get(body, "ok")
+	vassert("C17.K2.boolean_ok", okv.Type == gjson.True || okv.Type == gjson.False)
+	if okv.Type == gjson.False {
+		vassert("C17.K2.err_when_not_ok", gjson.Get(body, "err").Type == gjson.String)
+	}
+	if c[0] != "OUTPUT" || len(c) == 1 {
+		vassert("C17.K2.elapsed_is_a_string", gjson.Get(body, "elapsed").Type == gjson.String)
+	}
+}
+
+// vhBulkBody parses "$<n>\r\n<n bytes>\r\n" exactly.
+func vhBulkBody(out string) (string, bool) {
+	if len(out) < 4 || out[0] != '$' {
+		return "", false
+	}
+	n, i := 0, 1
+	for ; i < len(out) && out[i] >= '0' && out[i] <= '9'; i++ {
+		n = n*10 + int(out[i]-'0')
+	}
+	if i == 1 || i+2 > len(out) || out[i] != '\r' || out[i+1] != '\n' {
+		return "", false
+	}
+	i += 2
+	if i+n+2 != len(out) || out[i+n] != '\r' || out[i+n+1] != '\n' {
+		return "", false
+	}
+	return out[i : i+n], true
+}
+
+// VH_C17_transports: the same reply framed for HTTP, native and websocket transports.
+//verif:cfg b_transports=HTTP,Native,WebSocket b_commands=6 ignorego=1
+func VH_C17_transports() {
+	s, _ := vhGateServer()
+	cmds := [][]string{{"GET", "fleet", "truck1"}, {"SCAN", "fleet"}, {"PING"}, {"NOSUCH"}, {"GET", "nokey", "x"}, {"SET", "fleet", "t9", "POINT", "1", "2"}}
+	c := cmds[vchoose(len(cmds))]
+	ct := [3]Type{HTTP, Native, WebSocket}[vchoose(3)]
+	client := &Client{}
+	msg := &Message{Args: append([]string(nil), c...), ConnType: ct, OutputType: JSON}
+	err := s.handleInputCommand(client, msg)
+	out := string(client.out)
+	vassert("C17.K3.no_transport_error", err == nil)
+	var body string
+	ok := false
+	switch ct {
+	case HTTP:
+		i := strings.Index(out, "\r\n\r\n")
+		if strings.HasPrefix(out, "HTTP/1.1 200 OK\r\n") && i > 0 {
+			body = out[i+4:]
+			cl := vhHeaderInt(out[:i], "Content-Length: ")
+			ok = cl == len(body) && strings.HasSuffix(body, "\r\n")
+			body = strings.TrimSuffix(body, "\r\n")
+		}
+	case Native:
+		// $<len> <body>\r\n
+		if strings.HasPrefix(out, "$") && strings.HasSuffix(out, "\r\n") {
+			sp := strings.IndexByte(out, ' ')
+			if sp > 1 {
+				n := vhAtoi(out[1:sp])
+				body = out[sp+1 : len(out)-2]
+				ok = n == len(body)
+			}
+		}
+	default:
+		// websocket text frame: 0x81, 7-bit length (replies here are < 126 bytes or use the 16-bit form)
+		if len(out) >= 2 && out[0] == 129 {
+			if out[1] < 126 {
+				body = out[2:]
+				ok = int(out[1]) == len(body)
+			} else if out[1] == 126 && len(out) >= 4 {
+				body = out[4:]
+				ok = int(out[2])<<8|int(out[3]) == len(body) && len(body) >= 126
+			}
+		}
+	}
+	vobs("transport", int(ct), c[0])
+	vassert("C17.K3.transport_framing_carries_exact_length", ok)
+	vassert("C17.K3.framed_body_is_valid_json", gjson.Valid(body))
+}
+
+func vhAtoi(s string) int {
+	n := 0
+	for i := 0; i < len(s); i++ {
+		if s[i] < '0' || s[i] > '9' {
+			return -1
+		}
+		n = n*10 + int(s[i]-'0')
+	}
+	return n
+}
+
+func vhHeaderInt(head, name string) int {
+	i := strings.Index(head, name)
+	if i < 0 {
+		return -1
+	}
+	j := i + len(name)
+	k := j
+	for k < len(head) && head[k] >= '0' && head[k] <= '9' {
+		k++
+	}
+	return vhAtoi(head[j:k])
 }
